@@ -5,23 +5,42 @@ import RsMatterVerif.Props.C04
 /-!
 # C09 — reliable messaging delivers each message at most once and reports the truth
 
-Theorems over `Model/Transport.lean` (+ `Model/Dedup.lean` for the receive window):
-* `at_most_once`: on a secure session every counter is handed to the exchange layer at most once,
-  for every sequence of received headers (delayed, duplicated, reordered);
-* `gives_up_after_budget`, `giveup_is_timeout_not_success`: exactly `budget` retransmissions succeed,
-  the next attempt answers `TxTimeout`, leaves nothing pending, and `pre_send` never answers success
-  for it;
-* `stops_only_by_matching_ack`, `one_ack_suffices`: the pending retransmission disappears on receive
-  only through an acknowledgement of exactly its counter, and one such acknowledgement is enough;
-* `backoff_monotone_attempt`, `backoff_monotone_jitter`, `backoff_lower_bound`,
-  `backoff_actual_ge_spec`: the delay ladder is monotone and never below the protocol's lower bound
-  `base · 1.1 · 1.6^max(0, n−1)` — up to the stated rounding of the integer ladder, and without any
-  allowance for the jitter value the sender loop really uses when `base ≥ 200 ms`;
-* `reliable_message_gets_acked`: an accepted message that requested an acknowledgement leaves an
-  acknowledgement pending, and the next message sent on the exchange carries it.
-System-level clauses (in-order delivery across the two nodes, success ⇒ the peer's stack accepted
-the counter, duplicate ⇒ fresh standalone ack by `handle_rx_packet`) are not theorems here; see
-`docs/C09.md`.
+## One node: `Model/Transport.lean` (+ `Model/Dedup.lean` for the receive window)
+* `at_most_once` (SECURE sessions), `at_most_once_unsecured` (unsecured sessions, for header sequences
+  in which no copy arrives more than 16 counters behind the newest accepted one: `timelyRx`),
+  `at_most_once_timely` (both): every counter is handed to the exchange layer at most once, for every
+  sequence of received headers; `unsecured_not_at_most_once`: why the unsecured statement needs its
+  hypothesis (the restart rule of the unsecured window);
+* give-up, whole histories: `gives_up_on_every_schedule` (every interleaving of back-off expiries
+  and received messages none of which acknowledges the pending counter: exactly `budget − count`
+  further transmissions, then `TxTimeout`, nothing pending afterwards),
+  `gives_up_after_budget_on_every_schedule` (from the first transmission: `1 + budget`
+  transmissions), `stops_only_by_ack_or_timeout`, `one_ack_suffices_on_every_schedule`;
+  one fixed history / one step: `gives_up_after_budget`, `giveup_is_timeout_not_success`,
+  `stops_only_by_matching_ack`, `one_ack_suffices`, `reliable_message_gets_acked`;
+* back-off: `specBackoff` is the Matter specification's formula over the rationals with the
+  specification's literal constants; `code_constants_are_the_spec_constants`;
+  `backoff_within_spec_range` (base ≥ 200 ms, attempts ≤ 5, jitter byte 100..255: the code's delay lies
+  between the specification's value for `random = 0` and for `random = 1`), `backoff_le_spec_max`
+  (upper half, every base / jitter); refinement part (integer ladder against the real-valued one):
+  `backoff_monotone_attempt`, `backoff_monotone_jitter`, `backoff_lower_bound` (rounding allowance),
+  `backoff_actual_ge_spec`.
+
+## Two nodes and an adversarial network: `Model/TwoNode.lean`, `Lemmas/TwoNode.lean`
+For EVERY schedule of the model (induction over the schedule, invariant `TwoNode.Good`):
+`twoNode_in_order_at_most_once` (+ `_secure`), `twoNode_success_only_if_accepted`,
+`twoNode_acks_only_for_accepted`, `twoNode_ack_through_succeeds`, `twoNode_duplicate_acked_again`
+(+ `_secure`), `twoNode_retx_xor_giveup` (the sender always has exactly one enabled move of its own:
+retransmit below the budget, give up with `TxTimeout` at the budget), `twoNode_one_tx_one_ack_suffice`
+(existential, secure sessions), `unsecured_late_copy_is_shown_again` (why the unsecured clauses carry
+`late = false`), `accepted_trace_is_a_run` (soundness of the trace monitor).
+Restrictions of the model, all needed or stated: ONE exchange, data flows A → B only and
+acknowledgements B → A are stand-alone (no piggy-backed acknowledgements, no reliable traffic of
+B); the sending application stops for good at the first failed call
+(`order_breaks_if_sender_continues_after_giveup` shows that "in sending order" fails otherwise);
+the receiving application's receive is atomic with its stack's; no forged or corrupted datagrams.
+No fairness is assumed and no liveness is proved: "no hang" is `twoNode_retx_xor_giveup` (the sender
+itself is never blocked) plus the harness's hang detection, not a termination theorem.
 -/
 namespace C09
 open Transport
@@ -842,8 +861,10 @@ theorem late_copy_is_restart (rx : Dedup.RxState) (p : Dedup.PSpec) (c : Nat) (h
 open TwoNode in
 /-- **Success only if the peer's stack accepted the message** — for EVERY schedule, both session
 kinds, any number of messages, restarts of an unsecured window included: a send call that returned
-success was handed to the receiving application; and while no late copy was delivered, its counter is
-among those the receiver's window (= C04's set-based specification) accepted. -/
+success was handed to the receiving application (`i ∈ s.app`: this is the content). The second
+conjunct (while no late copy was delivered, the counter is in SOME list `acc` that C04's invariant
+relates to the receiver's window) is weak on its own — `C04.Inv` pins `acc` down only around the
+window — and is kept as the bridge to C04's specification. -/
 theorem twoNode_success_only_if_accepted (a0 b0 : Nat) (enc : Bool) (sai : Option Nat) (evs : List Ev) (s : Sys)
     (h : run (init a0 b0 enc sai) evs = some s) (i : Nat) (hok : (i, true) ∈ s.res) :
     i ∈ s.app ∧ (s.late = false → ∃ acc, C04.Inv s.bRx acc ∧ a0 + i ∈ acc) := by
@@ -1006,6 +1027,56 @@ theorem twoNode_one_tx_one_ack_suffice (a0 b0 : Nat) (sai : Option Nat) (evs : L
       exact List.mem_cons_self
 
 open TwoNode in
+/-- **The sender is never stuck, and gives up exactly at the budget** — in every reachable state with
+a call in progress, exactly one of the sender's own moves is enabled: below the budget
+(`count < MRP_MAX_TRANSMISSIONS`) the retransmission and NOT the give-up; at the budget the give-up
+and NOT another retransmission, and the give-up ends the call with failure (`TxTimeout`), never
+with success. (Every schedule, both session kinds.) -/
+theorem twoNode_retx_xor_giveup (a0 b0 : Nat) (enc : Bool) (sai : Option Nat) (evs : List Ev) (s : Sys)
+    (h : run (init a0 b0 enc sai) evs = some s) (i : Nat) (hcur : s.cur = some i) :
+    ∃ r, s.aMrp.retrans = some r ∧ r.ctr = a0 + i ∧
+      ((r.count < budget ∧ (step s .retx).isSome = true ∧ step s .giveup = none) ∨
+       (r.count = budget ∧ step s .retx = none ∧
+          ∃ s', step s .giveup = some s' ∧ s'.cur = none ∧ s'.res = (i, false) :: s.res ∧ s'.aMrp.retrans = none)) := by
+  obtain ⟨_, _, g⟩ := good_run evs (good_init a0 b0 enc sai) h
+  obtain ⟨_, r, hr, hctr, hcnt⟩ := g.curSome i hcur
+  refine ⟨r, hr, hctr, ?_⟩
+  by_cases hb : r.count < Consts.mrpMaxTransmissions
+  · left
+    have hp := preSend_retrans_ok s.aMrp r none s.sai hr hb
+    refine ⟨hb, ?_, ?_⟩ <;> simp [step, Sys.resendStep, hcur, hr, hp]
+  · right
+    have hp := preSend_retrans_timeout s.aMrp r none s.sai hr hb
+    refine ⟨by unfold budget; omega, ?_, ?_⟩
+    · simp [step, Sys.resendStep, hcur, hr, hp.1]
+    · refine ⟨{ s with aMrp := (s.aMrp.preSend r.ctr true none s.sai).1, cur := none, res := (i, false) :: s.res }, ?_, rfl, rfl, hp.2.1⟩
+      simp [step, Sys.resendStep, hcur, hr, hp.1]
+
+/-- `sendStep` WITHOUT "the application stops at the first failed call": a new message although an
+earlier call on this exchange failed -/
+def sendAfterFailure (s : TwoNode.Sys) : Option TwoNode.Sys :=
+  if s.cur.isSome || s.aMrp.retrans.isSome then none else
+  let r := s.aMrp.preSend s.aCtr true none s.sai
+  match r.2.2 with
+  | some _ => none
+  | none =>
+    some { s with aCtr := s.aCtr + 1, aMrp := r.1, cur := some s.next, next := s.next + 1,
+                  net := TwoNode.Dg.data s.aCtr s.next :: s.net }
+
+/-- **The restriction "nothing is sent on the exchange after a failed call" is needed** (it is the
+Matter rule: an exchange on which reliable delivery failed is closed; rs-matter reports `TxTimeout`
+and, on a CASE session, expires the session, but its `Exchange` API does not itself refuse a further
+`send`). On a SECURE session: message 0 is given up after six transmissions all of which are merely
+delayed; the application sends message 1 on the same exchange; message 1 arrives, then a delayed
+copy of message 0 — a first-time counter inside the receive window — is accepted and shown to the
+receiving application AFTER message 1: not in sending order, and message 0 was reported as failed. -/
+theorem order_breaks_if_sender_continues_after_giveup :
+    ∃ s1 s2 s3, TwoNode.run (TwoNode.init 100 500 true) [.send, .retx, .retx, .retx, .retx, .retx, .giveup] = some s1 ∧
+      s1.res = [(0, false)] ∧ TwoNode.step s1 .send = none ∧ sendAfterFailure s1 = some s2 ∧
+      TwoNode.run s2 [.deliver (.data 101 1), .deliver (.data 100 0)] = some s3 ∧ s3.app = [0, 1] ∧ s3.late = false := by
+  refine ⟨_, _, _, rfl, ?_, ?_, rfl, rfl, ?_, ?_⟩ <;> decide
+
+open TwoNode in
 /-- **Soundness of the trace monitor**: a log of observed events the driver accepts
 (`acceptsTrace`) is the trace of a schedule of the model, so everything proved above about every
 schedule holds for the run that produced it — in particular every call it reports as successful
@@ -1018,6 +1089,37 @@ theorem accepted_trace_is_a_run (a0 b0 : Nat) (enc : Bool) (sai : Option Nat) (o
   obtain ⟨evs, hrun⟩ := acceptsTrace_run _ _ _ h
   exact ⟨⟨evs, hrun⟩, twoNode_in_order_at_most_once a0 b0 enc sai evs s hrun,
     fun i hi => (twoNode_success_only_if_accepted a0 b0 enc sai evs s hrun i hi).1⟩
+
+/-- non-vacuity of the monitor: a good trace (first transmission lost, retransmission after the
+back-off, delivery, acknowledgement, success) is accepted … -/
+example : (match TwoNode.acceptsTrace (TwoNode.init 100 500)
+      [.txA 0 100 0 .lost, .txA 362 100 0 .pass, .rxB 100 0, .appB 0, .txB 500 100 .pass, .rxA 500 100, .endA 0 true] with
+    | .ok s => some (s.app, s.res, s.late)
+    | .error _ => none) = some ([0], [(0, true)], false) := by decide
+
+/-- … a give-up after the budget (six transmissions at the code's own back-off, all lost) is accepted … -/
+example : (match TwoNode.acceptsTrace (TwoNode.init 100 500)
+      [.txA 0 100 0 .lost, .txA 362 100 0 .lost, .txA 724 100 0 .lost, .txA 1303 100 0 .lost, .txA 2229 100 0 .lost,
+       .txA 3711 100 0 .lost, .endA 0 false] with
+    | .ok s => some (s.app, s.res)
+    | .error _ => none) = some ([], [(0, false)]) := by decide
+
+/-- … and it rejects: a retransmission earlier than the back-off, a success without an acknowledgement,
+a failure before the budget is used up -/
+example :
+    (TwoNode.acceptsTrace (TwoNode.init 100 500) [.txA 0 100 0 .lost, .txA 100 100 0 .pass]).toOption.isNone = true ∧
+    (TwoNode.acceptsTrace (TwoNode.init 100 500)
+      [.txA 0 100 0 .pass, .rxB 100 0, .appB 0, .txB 500 100 .lost, .endA 0 true]).toOption.isNone = true ∧
+    (TwoNode.acceptsTrace (TwoNode.init 100 500) [.txA 0 100 0 .lost, .txA 362 100 0 .lost, .endA 0 false]).toOption.isNone = true := by
+  refine ⟨by decide, by decide, by decide⟩
+
+/-- a schedule with a give-up in the two-node model: six transmissions, all dropped, then `giveup` -/
+example :
+    (TwoNode.run (TwoNode.init 100 500)
+      [.send, .drop (.data 100 0), .retx, .drop (.data 100 0), .retx, .drop (.data 100 0), .retx, .drop (.data 100 0),
+       .retx, .drop (.data 100 0), .retx, .drop (.data 100 0), .giveup]).map (fun s => (s.app, s.res, s.cur, s.net)) =
+    some ([], [(0, false)], none, []) := by
+  decide
 
 /-- The receive window of an unsecured session (`enc = false`, the other half of the harness's
 system-level flows) differs from the secure one only for counters more than the window width behind
